@@ -1,6 +1,7 @@
 package main
 
 import (
+	"fmt"
 	"go/token"
 	"strings"
 
@@ -17,7 +18,9 @@ func checkC16(c *Ctx) {
 	c.rule("DOM-format-dispatch", "legacy / new decoder and key-space are selected by the key length consistently", 5)
 	c.rule("FLOW-legacy-node", "legacy decoder: isLegacy set, hash from the storage key, version from the body", 3)
 	c.rule("PASS-legacy-root-fallback", "root lookup consults the legacy root key-space before 'version does not exist'", 1)
-	c.rule("ORDER-legacy-prune", "legacy versions are deleted before the legacy range is marked gone", 2)
+	c.rule("ORDER-legacy-prune", "legacy versions are deleted before the legacy range is marked gone; the cached first version leaves the legacy range", 4)
+	c.rule("TABLE-legacy-root", "legacy root lookup: missing entry = version does not exist, empty entry = empty tree, else the root hash", 3)
+	c.rule("TABLE-legacy-orphans", "legacy orphan record (from, to) vs. latest legacy version L: node deleted iff (from <= L and to < L) or from > L", 9)
 
 	getNode := l.Func("", "*nodeDB.GetNode")
 	mk, mkLegacy := l.Func("", "MakeNode"), l.Func("", "MakeLegacyNode")
@@ -158,6 +161,10 @@ func checkC16(c *Ctx) {
 		}
 		c.decide("PASS-legacy-root-fallback", "GetRoot tries the legacy root key before 'version does not exist'", l.pos(getRoot.Pos()), ok && n > 0, "the not-found exit outside the reference-root branch passes the legacy lookup", "a version can be reported missing without consulting the legacy root key-space")
 	}
+	if getRoot != nil && lrk != nil {
+		checkLegacyRootTable(c, getRoot, lrk)
+	}
+	checkLegacyOrphanTable(c)
 	// pruning across the boundary
 	dvt := l.Func("", "*nodeDB.deleteVersionsTo")
 	dlv := l.Func("", "*nodeDB.deleteLegacyVersions")
@@ -175,6 +182,28 @@ func checkC16(c *Ctx) {
 					ok = false
 				}
 			}
+		}
+		// once the legacy versions are gone the cached first version must leave the legacy range,
+		// also when the per-version loop that follows does not run (pruning exactly to the boundary)
+		rfv := l.Func("", "*nodeDB.resetFirstVersion")
+		gfn := l.Func("", "*nodeDB.getFirstNonLegacyVersion")
+		if rfv == nil || gfn == nil || len(dl) != 1 {
+			c.anchorMissing("ORDER-legacy-prune", "resetFirstVersion / getFirstNonLegacyVersion")
+		} else {
+			isRefresh := func(in ssa.Instruction) bool { cc := callCommon(in); return cc != nil && predStatic(rfv, gfn)(cc) }
+			escapes := reachableAfter(dl[0], func(x ssa.Instruction) bool {
+				r, isRet := x.(*ssa.Return)
+				return isRet && !isRecoverReturn(r) && errNilness(retVal(r, 0), r.Block(), 0) <= 0
+			}, isRefresh)
+			c.decide("ORDER-legacy-prune", "first version refreshed after the legacy range was deleted", l.ipos(dl[0]), len(escapes) == 0, "every success path after deleteLegacyVersions passes getFirstNonLegacyVersion / resetFirstVersion",
+				"deleteVersionsTo can succeed after deleting the legacy versions without refreshing the cached first version")
+			pass := mustState(gfn, false, func(in ssa.Instruction) bool { cc := callCommon(in); return cc != nil && predStatic(rfv)(cc) }, nil)
+			okG := true
+			for _, r := range successReturns(gfn) {
+				okG = okG && pass(r)
+			}
+			c.decide("ORDER-legacy-prune", "getFirstNonLegacyVersion stores the version it found", l.pos(gfn.Pos()), okG, "every success return passes resetFirstVersion",
+				"the first non-legacy version is computed but not cached: after a prune exactly at the boundary the handle keeps reporting the deleted legacy versions as available")
 		}
 		c.decide("ORDER-legacy-prune", "legacy range marked gone only after a successful legacy delete", l.pos(dvt.Pos()), ok, "resetLegacyLatestVersion is dominated by the nil-error edge of deleteLegacyVersions", "the legacy boundary is reset although the legacy versions were not (successfully) deleted")
 	}
@@ -200,4 +229,241 @@ func reachesWithout(from, to *ssa.BasicBlock) bool {
 		return false
 	}
 	return dfs(from)
+}
+
+// checkLegacyRootTable: three outcomes of the legacy root lookup.
+func checkLegacyRootTable(c *Ctx, getRoot, lrk *ssa.Function) {
+	l := c.L
+	const R = "TABLE-legacy-root"
+	// the Get whose key comes from legacyRootKey
+	var v ssa.Value
+	var at ssa.Instruction
+	allInstrs(getRoot, func(in ssa.Instruction) {
+		cc := callCommon(in)
+		if cc == nil || !cc.IsInvoke() || cc.Method.Name() != "Get" || len(cc.Args) == 0 {
+			return
+		}
+		if isResultOf(predStatic(lrk), -1)(stripTrivial(cc.Args[0])) {
+			if e := extractOf(in.(ssa.Value), 0); e != nil {
+				v, at = e, in
+			}
+		}
+	})
+	if v == nil {
+		c.anchorMissing(R, "legacy root Get in GetRoot")
+		return
+	}
+	isErrNotExist := func(r *ssa.Return) bool {
+		ld, ok := stripTrivial(retVal(r, 1)).(*ssa.UnOp)
+		if !ok {
+			return false
+		}
+		g, ok := ld.X.(*ssa.Global)
+		return ok && g.Name() == "ErrVersionDoesNotExist"
+	}
+	// nil test on v
+	var nilG []guard // pass = non-nil edge
+	for _, b := range getRoot.Blocks {
+		iff := ifOf(b)
+		if iff == nil {
+			continue
+		}
+		if x, nn, ok := nilCond(iff.Cond); ok && stripTrivial(x) == v {
+			nilG = append(nilG, guard{iff, nn})
+		}
+	}
+	okNil := len(nilG) > 0
+	for _, g := range nilG {
+		// the nil edge leads to ErrVersionDoesNotExist only
+		searchFrom([]point{blockStart(g.iff.Block().Succs[1-g.pass])}, func(in ssa.Instruction) bool {
+			if r, ok := in.(*ssa.Return); ok {
+				if !isErrNotExist(r) {
+					okNil = false
+				}
+				return true
+			}
+			return false
+		})
+	}
+	c.decide(R, "legacy root entry missing ⇒ ErrVersionDoesNotExist", l.ipos(at), okNil, "the nil edge returns ErrVersionDoesNotExist", "no `entry == nil ⇒ version does not exist` decision on the legacy root lookup")
+	// after the legacy lookup, 'does not exist' only on the nil edge (an EMPTY entry is an empty tree, not a missing version)
+	okOnly := true
+	searchFrom([]point{after(at)}, func(in ssa.Instruction) bool {
+		if r, ok := in.(*ssa.Return); ok {
+			if isErrNotExist(r) {
+				onNil := false
+				for _, g := range nilG {
+					if edgeDominates(g.iff.Block(), 1-g.pass, r.Block()) {
+						onNil = true
+					}
+				}
+				if !onNil {
+					okOnly = false
+				}
+			}
+			return true
+		}
+		return false
+	})
+	c.decide(R, "legacy root entry present but empty is not 'version does not exist'", l.ipos(at), okOnly, "'does not exist' is returned only on the nil edge", "an empty legacy root entry (the legacy encoding of an empty tree) is reported as a missing version: such versions cannot be loaded and a database whose latest legacy version is empty cannot be opened")
+	// empty ⇒ (nil, nil)
+	okEmpty := false
+	for _, b := range getRoot.Blocks {
+		iff := ifOf(b)
+		if iff == nil {
+			continue
+		}
+		bo, ok := stripTrivial(iff.Cond).(*ssa.BinOp)
+		if !ok || bo.Op != token.EQL {
+			continue
+		}
+		k, isK := constInt(bo.Y)
+		call, isCall := stripTrivial(bo.X).(*ssa.Call)
+		if !isK || k != 0 || !isCall {
+			continue
+		}
+		if bi, ok := call.Call.Value.(*ssa.Builtin); !ok || bi.Name() != "len" || stripTrivial(call.Call.Args[0]) != v {
+			continue
+		}
+		good := true
+		searchFrom([]point{blockStart(b.Succs[0])}, func(in ssa.Instruction) bool {
+			if r, ok := in.(*ssa.Return); ok {
+				if !isNilConst(stripTrivial(retVal(r, 0))) || !isNilConst(stripTrivial(retVal(r, 1))) {
+					good = false
+				}
+				return true
+			}
+			return false
+		})
+		okEmpty = good
+	}
+	c.decide(R, "legacy root entry empty ⇒ empty tree (nil root, no error)", l.ipos(at), okEmpty, "len == 0 edge returns (nil, nil)", "no `len(entry) == 0 ⇒ (nil, nil)` decision on the legacy root lookup")
+}
+
+// checkLegacyOrphanTable walks the legacy-orphan callback of
+// deleteLegacyVersions for every ordering of (from, L) and (to, L).  `to` is
+// the LAST version in which the node is live, so a node with to == L is still
+// used by the latest legacy version (and by the new-format versions on top).
+func checkLegacyOrphanTable(c *Ctx) {
+	l := c.L
+	const R = "TABLE-legacy-orphans"
+	dlv := l.Func("", "*nodeDB.deleteLegacyVersions")
+	dfp := l.Func("", "*nodeDB.deleteFromPruning")
+	if dlv == nil || dfp == nil {
+		c.anchorMissing(R, "deleteLegacyVersions / deleteFromPruning")
+		return
+	}
+	// the callback that scans an orphan key into two locals
+	var cb *ssa.Function
+	var aTo, aFrom ssa.Value
+	for _, af := range dlv.AnonFuncs {
+		allInstrs(af, func(in ssa.Instruction) {
+			cc := callCommon(in)
+			if cc == nil {
+				return
+			}
+			f := staticCallee(cc)
+			if f == nil || f.Name() != "Scan" || len(cc.Args) < 3 {
+				return
+			}
+			vals, ok := variadicValues(cc.Args[2])
+			if !ok || len(vals) != 2 {
+				return
+			}
+			un := func(v ssa.Value) ssa.Value {
+				if mi, ok := v.(*ssa.MakeInterface); ok {
+					return mi.X
+				}
+				return v
+			}
+			cb, aTo, aFrom = af, un(vals[0]), un(vals[1])
+		})
+	}
+	if cb == nil {
+		c.anchorMissing(R, "legacy orphan callback (Scan of to / from)")
+		return
+	}
+	classify := func(v ssa.Value) string {
+		v = stripTrivial(v)
+		if ld, ok := v.(*ssa.UnOp); ok && ld.Op == token.MUL {
+			if ld.X == aTo {
+				return "to"
+			}
+			if ld.X == aFrom {
+				return "from"
+			}
+		}
+		if _, ok := v.(*ssa.Const); ok {
+			return ""
+		}
+		return "L"
+	}
+	for _, fromOrd := range []int{-1, 0, 1} {
+		for _, toOrd := range []int{-1, 0, 1} {
+			ord := map[string]int{"from": fromOrd, "to": toOrd}
+			env := &walkEnv{evalAtom: func(w *walker, v ssa.Value) int {
+				bo, ok := v.(*ssa.BinOp)
+				if !ok {
+					return 0
+				}
+				a, b := classify(bo.X), classify(bo.Y)
+				switch {
+				case a != "" && a != "L" && b == "L":
+					return cmpHolds(bo.Op, ord[a])
+				case a == "L" && b != "" && b != "L":
+					return cmpHolds(bo.Op, -ord[b])
+				}
+				if bo.Op == token.AND || bo.Op == token.OR || bo.Op == token.NEQ || bo.Op == token.EQL {
+					// nil tests of err etc.: not decided here
+				}
+				return 0
+			}}
+			w := &walker{env: env, vals: map[ssa.Value]int{}}
+			deleted := false
+			w.onCall = func(w *walker, call *ssa.Call) {
+				if predStatic(dfp)(&call.Call) {
+					deleted = true
+				}
+			}
+			// start after the Scan: the callback begins with a decode / error check we do not model;
+			// walk from the block containing the first comparison of from/to
+			var start *ssa.BasicBlock
+			for _, b := range cb.Blocks {
+				if start != nil {
+					break
+				}
+				for _, in := range b.Instrs {
+					if bo, ok := in.(*ssa.BinOp); ok && (classify(bo.X) == "from" || classify(bo.X) == "to" || classify(bo.Y) == "from" || classify(bo.Y) == "to") {
+						start = b
+						break
+					}
+				}
+			}
+			names := map[int]string{-1: "<", 0: "=", 1: ">"}
+			key := fmt.Sprintf("legacy orphan from %s L, to %s L", names[fromOrd], names[toOrd])
+			if start == nil {
+				c.bad(R, key, l.pos(cb.Pos()), "no comparison of the orphan's from/to versions with the latest legacy version found")
+				continue
+			}
+			ret, stuck := w.runFrom(start, nil)
+			want := (fromOrd <= 0 && toOrd < 0) || fromOrd > 0
+			if ret == nil {
+				pos := l.pos(cb.Pos())
+				if stuck != nil {
+					pos = l.ipos(stuck)
+				}
+				c.undecided(R, key, pos, "the walk of the callback could not decide a branch")
+				continue
+			}
+			got := "kept"
+			if deleted {
+				got = "deleted"
+			}
+			exp := "kept"
+			if want {
+				exp = "deleted"
+			}
+			c.decide(R, key, l.pos(cb.Pos()), deleted == want, "node "+got, "node is "+got+", must be "+exp+": `to` is the last version in which the node is live, so to == L means the latest legacy version (and the new-format versions built on it) still use it")
+		}
+	}
 }
